@@ -27,7 +27,29 @@ Definition never_ranged_unsorted (pkg ty : string) (l : list site) : bool :=
 
 Definition ts_in (pkg : string) (u : ts_use) : bool := String.eqb (t_pkg u) pkg.
 
-Definition cfg_of_facts (sites : list site) (uses : list ts_use) : cfg :=
+(** goroutines that FEED a channel.  A consensus-scope function with a send inside a go statement is a producer; it is
+    accepted when it starts exactly one goroutine, every send of it is a plain statement (not the communication of a select
+    clause), the function contains no select, no timer and no deadline, and the goroutine closes the channel.  No producer
+    at all (the channel was replaced by a slice / an iterator function) is fine too. *)
+Definition same_fn (a b : conc_site) : bool := String.eqb (k_pkg a) (k_pkg b) && String.eqb (k_fn a) (k_fn b).
+
+Definition is_kind (k : conc_kind) (s : conc_site) : bool := conc_kind_eqb (k_kind s) k.
+Definition is_select (s : conc_site) : bool := match k_kind s with CkSelect _ _ => true | _ => false end.
+
+Definition producer_okb (all : list conc_site) (p : conc_site) : bool :=
+  let fn := filter (same_fn p) all in
+  Nat.eqb (List.length (filter (is_kind CkGo) fn)) 1 &&
+  forallb (fun s => negb (is_kind CkSend s) || negb (k_in_select s)) fn &&
+  negb (existsb is_select fn) && negb (existsb (is_kind CkTimer) fn) && negb (existsb (is_kind CkDeadline) fn) &&
+  existsb (fun s => is_kind CkClose s && k_in_go s) fn.
+
+Definition is_producer (s : conc_site) : bool :=
+  scope_eqb (k_scope s) ScopeConsensus && is_kind CkSend s && k_in_go s.
+
+Definition range_blocking (concs : list conc_site) : bool :=
+  forallb (fun s => negb (is_producer s) || producer_okb concs s) concs.
+
+Definition cfg_of_facts (sites : list site) (uses : list ts_use) (concs : list conc_site) : cfg :=
   mk_cfg
     (* every ToSlice result inside x/sudo/keeper is sorted (or only measured), and one is sorted *)
     (existsb (fun u => ts_in "x/sudo/keeper" u && ts_kind_eqb (t_kind u) UseSorted) uses &&
@@ -36,4 +58,5 @@ Definition cfg_of_facts (sites : list site) (uses : list ts_use) : cfg :=
     (sorted_everywhere "x/evm/statedb" "statedb.Storage" sites)
     (sorted_everywhere "x/common/omap" "map[K]V" sites)
     (never_ranged_unsorted "x/oracle/keeper" "map[asset.Pair]types.ExchangeRateVotes" sites)
-    (never_ranged_unsorted "x/oracle/keeper" "map[asset.Pair]types.ExchangeRateVotes" sites).
+    (never_ranged_unsorted "x/oracle/keeper" "map[asset.Pair]types.ExchangeRateVotes" sites)
+    (range_blocking concs).
